@@ -150,7 +150,7 @@ class SymBool:
 
     def __bool__(self):
         s = z3.Solver()
-        s.set("timeout", 20000)
+        s.set("timeout", 90000)
         s.add(*Ctx.assumptions)
         t = time.time()
         # lemma: a polynomial whose monomials all carry the same sign over strictly positive variables has that sign
@@ -293,7 +293,7 @@ def matrix(name, n, m, strict=False, symmetric=False, diagonal=False):
     return a
 
 
-def decide_equal(impl, spec, timeout_ms=60000, extra=()):
+def decide_equal(impl, spec, timeout_ms=240000, extra=()):
     """is impl == spec for all values satisfying the assumptions? returns (verdict, model, solver)"""
     s = z3.Solver()
     s.set("timeout", timeout_ms)
@@ -307,7 +307,7 @@ def decide_equal(impl, spec, timeout_ms=60000, extra=()):
     return r, (s.model() if r == "sat" else None), s
 
 
-def decide_holds(cond, timeout_ms=60000, extra=()):
+def decide_holds(cond, timeout_ms=240000, extra=()):
     """does the z3 Bool `cond` hold for all values satisfying the assumptions?"""
     s = z3.Solver()
     s.set("timeout", timeout_ms)
